@@ -22,6 +22,21 @@ CLAIMS.update({
             'def-use error-flow analysis over MIR + must-pass-through on enumerated paths', '§4 C11'),
 })
 
+CLAIMS.update({
+    'C06': ('proof',
+            'The reduction in DESIGN.md §4/C06 is discharged on each run: the ordering check is executed abstractly over all 12 cases of (first key?, duplicate mode, key <,=,> last) and yields exactly the contract table with the right payloads; no builder state is written on a path to Err and the remembered key becomes the offered key on Ok; the builder-internal mutating routines are callable only from add/insert behind the check (whose result is propagated) and from the consuming finishers; all 14 front ends propagate the per-item error through `?`/return; set front ends reach add (no duplicate check) and map front ends insert; a repeated set key writes nothing. The claim for all call histories follows by induction.',
+            'Trusts the lexicographic semantics of PartialEq/PartialOrd on byte slices as modelled by the ordering domain. "The finished FST contains exactly the accepted keys" additionally needs the value-level part of C01, which is not decided.',
+            'abstract execution of MIR over a finite ordering domain + effect/who-may-call rules + def-use error flow', '§4 C06'),
+    'C10': ('other',
+            'Decides the structural clauses: the constructor is executed abstractly under every class of (version, length, root address) with linear arithmetic and every feasible path must end as the contract says (Version / Format / opens; the 32- and 36-byte smallest files open); metadata words are read at the per-version offsets; every reader-side use of the index threshold is guarded by version >= 2; verify() answers ChecksumMissing iff no checksum is stored; the constructor is the only place the FST type is built.',
+            'Does not decide that every well-formed version-1/2 file answers every query according to its content: the tree has no encoder for those versions, and node decoding for them is covered only through the version guards (R10.3) and the shared layout rules of C09/C01.',
+            'abstract execution of the constructor under linear constraints (Fourier-Motzkin) + guard/dominance rules', '§4 C10'),
+    'C16': ('other',
+            'Decides the structural clauses: every output-accumulating descent of the reader that tests finality also reads the final output; the inverse lookup reports success only under "node final and final output = remaining value", each step subtracts the followed transition\'s output and appends its byte; get_key delegates on a fresh buffer; the caller\'s buffer is append-only.',
+            'Does not decide that choosing the last transition with output <= remaining value is correct for every monotone map: that depends on the builder\'s output-prefix arithmetic (argued in DESIGN.md, not checked).',
+            'sibling-consistency rule + path-sensitive conditions on enumerated MIR paths', '§4 C16'),
+})
+
 NOT_APPLICABLE = {
     'C17': 'Acceptance is a property of a DFA constructed at run time from the query; no clause has a structural counterpart that a sound static rule within reach could decide (DESIGN.md §6).',
 }
